@@ -33,6 +33,9 @@ def inline_silent_rules(expr: Expression, rules: Mapping[str, Rule]) -> Expressi
         # A reference to an undefined rule is left alone.
         rule = rules.get(expr.value)
         if rule and rule.modifier & SILENT:
+            if rule.name in ("COMMENT", "WHITESPACE"):
+                # Trivia rules are matched atomically, which their body alone is not.
+                return expr
             if expr.tag:
                 # Keep the tag of `#tag = silent_rule`.
                 return Group(rule.expression, tag=expr.tag)
